@@ -75,6 +75,23 @@ impl CredSoftLockPolicy {
     /// Determine the next lock state after a failure based on this credentials
     /// policy.
     fn failure_next_state(&self, count: usize, ct: Duration) -> LockState {
+        match self.failure_next_state_inner(count, ct) {
+            // A failure just before the end of the window would otherwise be reset (and so
+            // unlocked) at the window boundary, before the delay of this failure has passed.
+            LockState::Locked {
+                count,
+                reset_at,
+                unlock_at,
+            } if unlock_at > reset_at => LockState::Locked {
+                count,
+                reset_at: unlock_at,
+                unlock_at,
+            },
+            state => state,
+        }
+    }
+
+    fn failure_next_state_inner(&self, count: usize, ct: Duration) -> LockState {
         match self {
             CredSoftLockPolicy::Password => {
                 let next_day_end = ct.as_secs() + ONEDAY;
